@@ -124,9 +124,21 @@ func TestC05CLI(t *testing.T) {
 	runJobs := func() {
 		// one sequential invocation first: a fresh HOME is initialised (profile,
 		// library) by a single process, not by eight racing ones
-		warm := write("warm.ego", "package main\n\nfunc main() {\n}\n")
-		if _, _, _, to := runEgo(bin, filepath.Dir(warm), "fmt", warm); to {
-			r.Count("inconclusive.cli_watchdog", 1)
+		// (`ego run` / `ego test` also create the system database: two processes doing
+		// that at once fail with "table dsns already exists"), so every verb used
+		// below is started once, alone, before the pool.
+		warm := write("warm.ego", "package main\n\nimport \"fmt\"\n\nfunc main() {\n\tfmt.Println(1)\n}\n")
+		warmTest := write("warm_test.ego", "@test \"warm: up\"\n{\n\t@assert 1 == 1\n}\n")
+
+		for _, args := range [][]string{{"fmt", warm}, {"run", warm}, {"test", warmTest}} {
+			_, errText, exit, to := runEgo(bin, filepath.Dir(args[1]), args...)
+
+			switch {
+			case to:
+				r.Count("inconclusive.cli_watchdog", 1)
+			case exit != 0:
+				t.Fatalf("harness error: warm-up `ego %s` failed (exit %d): %s", args[0], exit, trunc(errText, 400))
+			}
 		}
 
 		sem := make(chan struct{}, 8)
